@@ -63,6 +63,10 @@ def r1(ctx: Ctx) -> None:
         ctx, f, f.node, "strict order table of Order._gt_lt", paths, list(_order_worlds()),
         lambda t: key(strip_ver(t)) in _ATOMS, _outcome, _spec,
     )
+    # comparing orders of different sides (or with a non-order) is refused up front
+    pre = [p for p in paths if p.exit[0] != "raise"]
+    ok = bool(pre) and all(any(e.name == "_check_comparability" and e.args and key(e.args[0]) == "other" for e in calls(p)) for p in pre)
+    ctx.check(ok, f, f.node, "comparison starts with the comparability check (same class, same side)", "self._check_comparability(other)", "present" if ok else "missing on some path")
     # the rich comparison operators delegate with the right flag
     for meth, flag in (("__lt__", False), ("__gt__", True)):
         m = ctx.func(f"Order.{meth}")
